@@ -3,7 +3,7 @@
    strict mode only adds checks: enforce_strict_equality on == / contains*, and the stricter lub, which on the
    boolean-rooted `if` branches of the fragment coincides with the permissive one). *)
 From Cedar Require Import Typecheck ValueProofs ConformProofs ExprEq TypecheckProofs TypecheckProofs2 TypecheckProofs3
-  TypecheckProofs4 TypecheckMain.
+  TypecheckProofs4 TypecheckIf TypecheckMain.
 
 Lemma lub_bshape_mode a b t : bshape a -> bshape b -> lub Strict a b = Some t -> lub Permissive a b = Some t.
 Proof.
@@ -38,7 +38,7 @@ Section Modes.
   Qed.
 
   Lemma sip_if c x y :
-    boolish x = true -> boolish y = true ->
+    boolish' x = true -> boolish' y = true ->
     same_in_permissive c -> same_in_permissive x -> same_in_permissive y -> same_in_permissive (If c x y).
   Proof.
     intros Hbx Hby IHc IHx IHy cs r H. cbn [tc] in H |- *.
@@ -49,7 +49,7 @@ Section Modes.
     - rewrite (IHx _ _ Ex), (IHy _ _ Ey).
       destruct tcn as [|[| |]| | | | | |]; try exact H;
         (destruct (lub Strict tx t_y) as [tl|] eqn:El; [|discriminate H];
-         rewrite (lub_bshape_mode _ _ _ (boolish_type _ _ _ _ _ _ _ Hbx Ex) (boolish_type _ _ _ _ _ _ _ Hby Ey) El);
+         rewrite (lub_bshape_mode _ _ _ (boolish_type' _ _ _ _ _ _ _ Hbx Ex) (boolish_type' _ _ _ _ _ _ _ Hby Ey) El);
          exact H).
     - rewrite (IHx _ _ Ex). destruct tcn as [|[| |]| | | | | |]; cbn in H |- *; try discriminate H; exact H.
     - rewrite (IHy _ _ Ey). destruct tcn as [|[| |]| | | | | |]; cbn in H |- *; try discriminate H; exact H.
